@@ -424,6 +424,7 @@ func runC17(r *Run) {
 	}
 	c17SharedAddresses(r)
 	c17AfterErrors(r)
+	c17FirstError(r)
 	// long inputs: kept elements at every residue of the index modulo 64 (word-sized bookkeeping must not lose any)
 	{
 		long := make([]S1, 150)
@@ -1026,6 +1027,8 @@ func runC12(r *Run) {
 			r.Violate("concurrent-filter-differs", e, map[string]interface{}{"expression": e}, b)
 		}
 	}
+	fmt.Fprintf(os.Stderr, "CASE deep crowd\n")
+	c12DeepCrowd(r)
 	// types no call has met before, met by several goroutines at once (anything remembered per type is first written here)
 	{
 		fmt.Fprintf(os.Stderr, "CASE fresh types\n")
